@@ -6,8 +6,8 @@
 EXTENDS Cosign, TLC
 CONSTANTS MaxHandoffs, Big        \* Big = TRUE: all 24 listing orders for n = 4 (1.3 million states, ~6 min; not used by the
                                   \* registered configurations), FALSE: 5 representative orders
-VARIABLES cfg, rank, order, phase, script, s, hand, pushedSig
-vars == <<cfg, rank, order, phase, script, s, hand, pushedSig>>
+VARIABLES cfg, rank, order, phase, script, s, hand, pushedSig, proposed
+vars == <<cfg, rank, order, phase, script, s, hand, pushedSig, proposed>>
 
 Cfgs == { [n |-> 2, m |-> 1, holder |-> <<1, 2>>], [n |-> 2, m |-> 2, holder |-> <<1, 2>>],
           [n |-> 3, m |-> 2, holder |-> <<1, 2, 3>>], [n |-> 3, m |-> 3, holder |-> <<1, 2, 3>>],
@@ -23,29 +23,31 @@ W == Wallets(cfg)
 
 Init == /\ cfg \in Cfgs /\ rank \in RankSet(cfg.n)
         /\ order = [w \in Wallets(cfg) |-> <<>>] /\ phase = "setup" /\ script = NoScript
-        /\ s = InitS(cfg) /\ hand = 0 /\ pushedSig = {}
+        /\ s = InitS(cfg) /\ hand = 0 /\ pushedSig = {} /\ proposed = NoBody
 
 Create == /\ phase = "setup"
           /\ \E w \in W, p \in PermSet(cfg.n) : order[w] = <<>> /\ order' = [order EXCEPT ![w] = p]
-          /\ UNCHANGED <<cfg, rank, phase, script, s, hand, pushedSig>>
+          /\ UNCHANGED <<cfg, rank, phase, script, s, hand, pushedSig, proposed>>
 \* the common address is funded once every cosigner has derived it; from here on the listing orders play no role
 Fund == /\ phase = "setup" /\ \A w \in W : order[w] # <<>>
         /\ \A w, v \in W : ScriptOf(cfg, order[w], rank) = ScriptOf(cfg, order[v], rank)
         /\ script' = ScriptOf(cfg, order[1], rank) /\ phase' = "funded" /\ order' = [w \in W |-> <<>>]
-        /\ UNCHANGED <<cfg, rank, s, hand, pushedSig>>
-Propose == /\ phase = "funded" /\ \E w \in W : s' \in A_Propose(cfg, s, w)
+        /\ UNCHANGED <<cfg, rank, s, hand, pushedSig, proposed>>
+\* two bodies stand for the proposer's freedom (locktime 0 or block height, final or replaceable sequence, ...)
+Bodies == {[NoBody EXCEPT !.locktime = <<0>>]} \cup (IF cfg.n <= 3 THEN {[NoBody EXCEPT !.locktime = <<1>>]} ELSE {})
+Propose == /\ phase = "funded" /\ \E w \in W, b \in Bodies : s' \in A_Propose(cfg, s, w, b) /\ proposed' = b
            /\ UNCHANGED <<cfg, rank, order, phase, script, hand, pushedSig>>
 Sign == /\ phase = "funded" /\ \E w \in W : s' \in A_Sign(cfg, s, w) /\ s' # s
-        /\ UNCHANGED <<cfg, rank, order, phase, script, hand, pushedSig>>
+        /\ UNCHANGED <<cfg, rank, order, phase, script, hand, pushedSig, proposed>>
 HandOff == /\ phase = "funded" /\ hand < MaxHandoffs
            /\ \E w, v \in W, f \in Forms : s' \in A_HandOff(cfg, s, w, v, f, {})
-           /\ hand' = hand + 1 /\ UNCHANGED <<cfg, rank, order, phase, script, pushedSig>>
+           /\ hand' = hand + 1 /\ UNCHANGED <<cfg, rank, order, phase, script, pushedSig, proposed>>
 SendOk == /\ phase = "funded"
           /\ \E w \in W : SendPushes(cfg, s, w) /\ s' \in A_Send(cfg, s, w) /\ pushedSig' = s.copy[w].signed
-          /\ UNCHANGED <<cfg, rank, order, phase, script, hand>>
+          /\ UNCHANGED <<cfg, rank, order, phase, script, hand, proposed>>
 SendRefused == /\ phase = "funded"
                /\ \E w \in W : s.copy[w].has /\ ~SendPushes(cfg, s, w) /\ s' \in A_Send(cfg, s, w)
-               /\ UNCHANGED <<cfg, rank, order, phase, script, hand, pushedSig>>
+               /\ UNCHANGED <<cfg, rank, order, phase, script, hand, pushedSig, proposed>>
 Next == Create \/ Fund \/ Propose \/ Sign \/ HandOff \/ SendOk \/ SendRefused
 Spec == Init /\ [][Next]_vars
 
@@ -67,6 +69,8 @@ HandOffKeeps == \A w, v \in W, f \in Forms : \A s2 \in A_HandOff(cfg, s, w, v, f
                     /\ s2.copy[v].signed \subseteq s.copy[w].signed
                     /\ (f # "raw" \/ NSig(s.copy[w]) <= cfg.m) => s2.copy[v].signed = s.copy[w].signed
 \* the named deviation is exactly what breaks this: it is enabled nowhere in the model
+\* every copy, wherever it travelled, is the transaction that was proposed: what the signatures commit to never changes
+CommitmentPreserved == \A w \in W : s.copy[w].has => s.copy[w].body = proposed /\ proposed \in Bodies
 \* a broadcast is final; signing by w only ever adds the signature of the key w holds
 PushedStable == [][s.pushed => s'.pushed]_vars
 SigningOnlyAdds == [][\A w \in W : s' \in A_Sign(cfg, s, w) =>
